@@ -128,7 +128,7 @@ def _sim_history(c, K, recount=True, coherence=False, handicaps=(0, -1.5)):
             t_before = _dt.datetime.utcnow()
             n_tr_log = len(rec.trades)
             act = c.choose("action%d" % k, ["place-new-trade", "place-same-trade", "place-in-with-trade", "process-packages", "fill-all", "fill-first", "fill-last", "cancel-all",
-                                            "suspend-lapse", "remove-runner", "place-same-order-again"] + (["replace-all"] if coherence else []))
+                                            "suspend-lapse", "remove-runner", "place-same-order-again"] + (["replace-all", "market-settles"] if coherence else []))
             c.tag("a%d" % k, act)
             with c.guard("step%d:%s" % (k, act)):
                 if act in ("place-new-trade", "place-same-trade", "place-in-with-trade"):
@@ -157,6 +157,12 @@ def _sim_history(c, K, recount=True, coherence=False, handicaps=(0, -1.5)):
                         c.ob("step%d.trades<=max" % k, len(rc.trades) <= 3)
                     else:
                         c.cover("refused")
+                elif act == "market-settles":
+                    # the closing book is applied to the blotter (results handed to the orders): orders that are not complete stay in the live list
+                    cb = cm.book([cm.runner(1, handicap=hcap, status="WINNER"), cm.runner(2, status="LOSER")], version=30 + k, status="CLOSED", pt_ms=cm.T0_MS + 1000 * (k + 1),
+                                 md=cm.market_definition(status="CLOSED"))
+                    market.blotter.process_closed_market(market, cb)
+                    c.cover("settled")
                 elif act == "place-same-order-again":
                     # an order object can be placed once: a second attempt (whatever became of the first) is rejected and changes nothing
                     if placed:
